@@ -36,14 +36,24 @@ type c20Op struct {
 type c20Stim struct {
 	ID    int     `json:"id"`
 	Limit int     `json:"limit"`
+	Kind  string  `json:"kind"` // "" the history, "stash" the stash file (no limit, forms written expanded)
 	Ops   []c20Op `json:"ops"`
+}
+
+// what the replay needs of a History and of a Stash
+type c20Store interface {
+	Add(form repl.Form)
+	Clear(start, end int)
+	Size() int
+	Nth(n int) repl.Form
 }
 
 type c20Death struct{}
 
-// the pool: multi-line forms, non-ASCII, a form that needs several lines
+// the pool: multi-line forms, non-ASCII (inside strings: the stash parses what it loads and slip's reader takes no
+// non-ASCII character outside a string), a form that needs several lines
 var c20Pool = [][]string{
-	{"(one)"}, {"(two", "  2)"}, {"(trois é ü)"}, {"(four)"}, {"(five", " 5", " five)"}, {"(six \"s\")"}, {"(sept 😀)"},
+	{"(one)"}, {"(two", "  2)"}, {"(trois \"é ü\")"}, {"(four)"}, {"(five", " 5", " five)"}, {"(six \"s\")"}, {"(sept \"😀\")"},
 }
 
 // probe forms for recorded findings: 101 a tab inside a line, 102 leading and trailing blanks
@@ -99,13 +109,28 @@ func c20(args []string) {
 		}
 		defer os.RemoveAll(dir)
 		file := filepath.Join(dir, "history")
-		load := func() *repl.History {
+		stash := st.Kind == "stash"
+		loadFailed := ""
+		load := func() c20Store {
+			if stash {
+				sh := &repl.Stash{}
+				// a stash file the reader rejects makes LoadExpanded panic (the session would not start): recorded
+				func() {
+					defer func() {
+						if r := recover(); r != nil {
+							loadFailed = fmt.Sprintf("%.200v", r)
+						}
+					}()
+					sh.LoadExpanded(file)
+				}()
+				return sh
+			}
 			hist := &repl.History{}
 			hist.SetLimit(st.Limit)
 			hist.Load(file)
 			return hist
 		}
-		loadedOf := func(hist *repl.History) [][][]int {
+		loadedOf := func(hist c20Store) [][][]int {
 			loaded := [][][]int{}
 			for k := hist.Size() - 1; 0 <= k; k-- { // Nth(0) is the most recent form; the reference keeps oldest first
 				loaded = append(loaded, c20Lines(hist.Nth(k)))
@@ -118,6 +143,10 @@ func c20(args []string) {
 			cnt := 0
 			if crash != nil {
 				hook := c20Hook[crash.Point]
+				if stash {
+					hook = map[string]string{"append.open": "stash.add.open", "append.write": "stash.add.write",
+						"clear.open": "stash.clear.open", "clear.write": "stash.clear.write"}[crash.Point]
+				}
 				repl.VerifCrash = func(point string) {
 					if point != hook {
 						return
@@ -170,6 +199,9 @@ func c20(args []string) {
 						n := hist.Size() // after Add trimmed it: the kept forms, oldest first
 						return hist.Nth(n - k).TabAppend(nil)
 					}
+					if stash { // the stash appends the form as it was typed, line by line
+						return append(form.Append(nil), '\n')
+					}
 					return form.TabAppend(nil)
 				}
 				ev["crashed"] = guarded(crash, pending, func() { hist.Add(form) })
@@ -184,6 +216,9 @@ func c20(args []string) {
 			case "restart":
 				hist = load()
 				ev["loaded"] = loadedOf(hist)
+			}
+			if loadFailed != "" {
+				ev["loadfailed"] = loadFailed
 			}
 			out.Emit(ev)
 		}
